@@ -1,12 +1,12 @@
 (* Properties_C12.v — C12: SIMD evaluation equals scalar evaluation.  Statements only.
-   N = lanes per pack (any N >= 1), A = element type, f = the scalar operation; the lane operation
-   of a context is taken to be the N-lane map of f (modelled, not verified: see notes/C12.md). *)
+   N = lanes per pack (ANY N >= 1), A = element type, f = the scalar operation.  The lane operation
+   of a context is taken to be the N-lane map of f (modelled, not verified: notes/C12.md).
+   [Some _] = no packed or scalar access left its buffer; [None] / [Undefined] = out-of-bounds access. *)
 From Coq Require Import List Arith Lia Bool.
 From NM Require Import Simd SimdProofs.
 Import ListNotations.
 
-(* packed loop + scalar tail = map f, for every lane count and every size (tail included);
-   "Some" = no packed load/store leaves its buffer *)
+(* ---------- element-wise: packed loop + scalar tail = map, every lane count, every size *)
 Theorem C12_unary_eq_map : forall (A : Type) (N : nat) (f : A -> A) (d : A) (inp out0 : list A),
   0 < N -> length out0 = length inp ->
   eval_unary N f inp out0 = Some (spec_unary f inp).
@@ -19,8 +19,138 @@ Theorem C12_binary_same_eq : forall (A : Type) (N : nat) (f : A -> A -> A) (d : 
 Proof. intros A N f d lhs rhs out0 HN. exact (eval_binary_same_eq A N HN f d lhs rhs out0). Qed.
 Print Assumptions C12_binary_same_eq.
 
+(* ---------- 2-d broadcast: the enumerator's (tag, offsets) sequence, read the way eval_binary reads
+   it, is EXACTLY the row-major list of (output cell, designated lhs cell, designated rhs cell): every
+   cell once, in order.  Hypothesis: each operand is a valid broadcast source of (R,C) and is not
+   (1,1) under R > 1. *)
+Theorem C12_binary_2d_covers_once : forall N R C l r, 0 < N -> 0 < R -> 0 < C ->
+  valid_operand R C l -> valid_operand R C r -> R = Nat.max (fst l) (fst r) ->
+  flat_map (cells_of N) (b2d_entries N (R, C) l r)
+  = map (fun c => (c, bc2_cell C l c, bc2_cell C r c)) (seq 0 (R * C)).
+Proof. exact b2d_covers_once. Qed.
+Print Assumptions C12_binary_2d_covers_once.
+
+(* ... hence the BROADCASTED_2D arm equals the broadcast spec and stays inside all three buffers *)
+Theorem C12_binary_2d_eq_on_domain : forall (A : Type) (N : nat) (f : A -> A -> A) (d : A) R C l r (lhs rhs out0 : list A),
+  0 < N -> 0 < R -> 0 < C -> valid_operand R C l -> valid_operand R C r -> R = Nat.max (fst l) (fst r) ->
+  length lhs = fst l * snd l -> length rhs = fst r * snd r -> length out0 = R * C ->
+  eval_binary_2d N f (R, C) l r lhs rhs out0
+  = Some (map (fun c => f (nth (bc2_cell C l c) lhs d) (nth (bc2_cell C r c) rhs d)) (seq 0 (R * C))).
+Proof. exact eval_binary_2d_eq. Qed.
+Print Assumptions C12_binary_2d_eq_on_domain.
+
+(* the hypothesis is needed: a (1,1) operand under a 2-row output is read at offset 1 of a 1-element buffer *)
+Theorem C12_binary_2d_covers_once_refuted : exists N R C l r (lhs rhs out0 : list nat),
+  0 < N /\ 0 < R /\ 0 < C /\ valid_operand R C l /\ (fst r = 1 \/ fst r = R) /\ (snd r = 1 \/ snd r = C) /\
+  R = Nat.max (fst l) (fst r) /\ length lhs = fst l * snd l /\ length rhs = fst r * snd r /\ length out0 = R * C /\
+  flat_map (cells_of N) (b2d_entries N (R, C) l r) <> map (fun c => (c, bc2_cell C l c, bc2_cell C r c)) (seq 0 (R * C)) /\
+  eval_binary_2d N Nat.add (R, C) l r lhs rhs out0 = None.
+Proof.
+  exists 4, 2, 1, (2, 1), (1, 1), [1; 2], [10], [0; 0].
+  repeat split; try (simpl; lia); try (vm_compute; reflexivity).
+  - left; reflexivity.
+  - left; reflexivity.
+  - simpl. lia.
+  - vm_compute. discriminate.
+Qed.
+Print Assumptions C12_binary_2d_covers_once_refuted.
+
+(* every packed access in bounds: the three element-wise evaluators return [Some _] on their domains *)
+Theorem C12_no_UB : forall (A : Type) (N : nat) (d : A), 0 < N ->
+  (forall (f : A -> A) inp out0, length out0 = length inp -> eval_unary N f inp out0 <> None) /\
+  (forall (f : A -> A -> A) lhs rhs out0, length lhs = length rhs -> length out0 = length lhs ->
+     eval_binary_same N f (length lhs) lhs rhs out0 <> None) /\
+  (forall (f : A -> A -> A) R C l r lhs rhs out0, 0 < R -> 0 < C -> valid_operand R C l -> valid_operand R C r ->
+     R = Nat.max (fst l) (fst r) -> length lhs = fst l * snd l -> length rhs = fst r * snd r -> length out0 = R * C ->
+     eval_binary_2d N f (R, C) l r lhs rhs out0 <> None).
+Proof.
+  intros A N d HN. split; [|split].
+  - intros f inp out0 H. rewrite (eval_unary_eq_map A N HN f d inp out0 H). discriminate.
+  - intros f lhs rhs out0 H1 H2. rewrite (eval_binary_same_eq A N HN f d lhs rhs out0 H1 H2). discriminate.
+  - intros f R C l r lhs rhs out0 HR HC Hl Hr Hm H1 H2 H3.
+    rewrite (eval_binary_2d_eq A N f d R C l r lhs rhs out0 HN HR HC Hl Hr Hm H1 H2 H3). discriminate.
+Qed.
+Print Assumptions C12_no_UB.
+
+(* ---------- reductions: "equal up to re-association" = equal for every associative-commutative f
+   with identity e.  [msum l] = fold_left f l e; for a non-empty l it is the scalar evaluator's left
+   fold seeded by the first element. *)
+Theorem C12_reduce_full_on_domain : forall (A : Type) (f : A -> A -> A) (e d : A) (N : nat) (inp : list A),
+  (forall a b c, f (f a b) c = f a (f b c)) -> (forall a b, f a b = f b a) -> (forall a, f e a = a) -> 0 < N ->
+  eval_reduce_full N f e (length inp) inp = Some (fold_left f inp e) /\
+  (inp <> [] -> fold_left f inp e = spec_reduce_full f d None inp).
+Proof.
+  intros A f e d N inp Ha Hc Hi HN. split.
+  - exact (eval_reduce_full_eq A f e Ha Hc Hi N HN d inp).
+  - intros Hne. symmetry. exact (fold1_msum A f e Ha Hc Hi d inp Hne).
+Qed.
+Print Assumptions C12_reduce_full_on_domain.
+
+(* the code starts the accumulator from set1(0) whatever the operation: with multiplication
+   (associative, commutative, identity 1) the result is 0, not the product *)
+Theorem C12_reduce_full_refuted : exists (N : nat) (inp : list nat),
+  0 < N /\ inp <> [] /\
+  (forall a b c, (a * b) * c = a * (b * c)) /\ (forall a b, a * b = b * a) /\ (forall a, 1 * a = a) /\
+  eval_reduce_full N Nat.mul 0 (length inp) inp = Some 0 /\
+  spec_reduce_full Nat.mul 0 None inp = 720.
+Proof.
+  exists 4, [1; 2; 3; 4; 5; 6]. repeat split; try lia; try discriminate; intros; lia.
+Qed.
+Print Assumptions C12_reduce_full_refuted.
+
+(* 2-d horizontal core (reduce along the contiguous axis of an (R,C) input, identity padding of the
+   last pack, lane-wise accumulation then fold of the lanes): row sums, for every N, R, C *)
+Theorem C12_reduce_horizontal_core : forall (A : Type) (f : A -> A -> A) (e z d : A) (N R C : nat) (inp out0 : list A) (out2 : nat * nat),
+  (forall a b c, f (f a b) c = f a (f b c)) -> (forall a b, f a b = f b a) -> (forall a, f e a = a) ->
+  0 < N -> 0 < C -> length inp = R * C -> length out0 = R ->
+  option_map fst (run_hsteps N f z e inp (red_entries N HORIZONTAL out2 (R, C)) (out0, set1 N e))
+  = Some (map (fun r => fold_left f (firstn C (skipn (r * C) inp)) e) (seq 0 R)).
+Proof.
+  intros A f e z d N R C inp out0 out2 Ha Hc Hi HN HC Hl Ho.
+  exact (hreduce_eq A f e Ha Hc Hi N HN z inp R C HC Hl out2 d out0 Ho).
+Qed.
+Print Assumptions C12_reduce_horizontal_core.
+
+(* ---------- further refutations (faithful model vs spec), each a known-finding class *)
+(* column-major operand: data() is walked in storage order *)
+Theorem C12_column_major_refuted : exists (N rows cols : nat) (logical out0 : list nat),
+  0 < N /\ length logical = rows * cols /\ length out0 = length logical /\
+  eval_unary_gen N S (colmajor2 0 rows cols logical) logical out0 <> Some (spec_unary S logical).
+Proof. exists 2, 2, 2, [1; 2; 3; 4], [0; 0; 0; 0]. repeat split; try lia. vm_compute. discriminate. Qed.
+Print Assumptions C12_column_major_refuted.
+
+(* operands of different rank (or an n-d broadcast): refused, the caller keeps the zero-initialised output *)
+Theorem C12_binary_refused_refuted : exists (N : nat) (lhs rhs out0 : list nat),
+  0 < N /\ bc_compat [1; 5] [1; 5] = true /\
+  eval_binary N Nat.add [1; 5] [5] [1; 5] lhs rhs out0 = Refused /\
+  spec_binary_bc Nat.add 0 [1; 5] [1; 5] [1; 5] lhs rhs <> out0.
+Proof. exists 4, [1; 2; 3; 4; 5], [1; 2; 3; 4; 5], [0; 0; 0; 0; 0]. repeat split; try lia. vm_compute. discriminate. Qed.
+Print Assumptions C12_binary_refused_refuted.
+
+(* `initial` is not an input of eval_reduction at all *)
+Theorem C12_reduce_initial_refuted : exists (N : nat) (inp : list nat) (init : nat),
+  0 < N /\ eval_reduction N Nat.add 0 0 [2; 3] [1; 1] None inp = Done [21] /\
+  spec_reduce_full Nat.add 0 (Some init) inp = 121.
+Proof. exists 4, [1; 2; 3; 4; 5; 6], 100. repeat split; try lia. Qed.
+Print Assumptions C12_reduce_initial_refuted.
+
+(* axis = -2 on a (2,3,2) input: VERTICAL arm with an empty "i <= axis" loop, accumulates past the output *)
+Theorem C12_reduce_negative_axis_refuted : exists (N : nat) (inp : list nat),
+  0 < N /\ length inp = 12 /\
+  eval_reduction N Nat.add 0 0 [2; 3; 2] [2; 1; 2] (Some (false, 0)) inp = Undefined.
+Proof. exists 4, [1; 2; 3; 4; 5; 6; 1; 2; 3; 4; 5; 6]. repeat split; try lia. Qed.
+Print Assumptions C12_reduce_negative_axis_refuted.
+
 (* ---------- non-vacuity ---------- *)
 Example C12_nonvacuous_unary : eval_unary 4 S [1;2;3;4;5;6;7;8;9] (repeat 0 9) = Some [2;3;4;5;6;7;8;9;10].
 Proof. reflexivity. Qed.
 Example C12_nonvacuous_binary : eval_binary_same 4 Nat.add 5 [1;2;3;4;5] [10;20;30;40;50] (repeat 0 5) = Some [11;22;33;44;55].
 Proof. reflexivity. Qed.
+Example C12_nonvacuous_2d : valid_operand 3 5 (3, 1) /\ valid_operand 3 5 (1, 5) /\
+  eval_binary_2d 4 Nat.add (3, 5) (3, 1) (1, 5) [100; 200; 300] [1; 2; 3; 4; 5] (repeat 0 15)
+  = Some [101;102;103;104;105;201;202;203;204;205;301;302;303;304;305].
+Proof. repeat split; try (simpl; lia); try (intros [? [? ?]]; simpl in *; lia). Qed.
+Example C12_nonvacuous_reduce : eval_reduce_full 4 Nat.add 0 9 [1;2;3;4;5;6;7;8;9] = Some 45
+  /\ eval_reduce_axis 4 Nat.add 0 0 [2; 5] [2; 1] true 2 [1;2;3;4;5;6;7;8;9;10] 2 = Some [15; 40]
+  /\ eval_reduce_axis 4 Nat.add 0 0 [2; 5] [1; 5] false 1 [1;2;3;4;5;6;7;8;9;10] 5 = Some [7;9;11;13;15].
+Proof. repeat split; reflexivity. Qed.
